@@ -514,6 +514,7 @@ def check(ctx):
                     break
         events = events_ref
     check_prev_hedge(ctx, torch, g)
+    check_shared_optimizer(ctx, torch, reqs, metas)
     check_fit_num(ctx, torch)
     try:
         outs = ctx.driver(reqs)
@@ -560,6 +561,216 @@ def check(ctx):
              "OCE(exp) / EntropicLoss: steps, history length, history values = means of the explicit loop's evaluations with inf / nan, parameters "
              "and step gradients bitwise with NaN = NaN; fit_num: counts exactly, numbers up to the first quantity that is non-finite or beyond 1e100); "
              "non-trivial = k>=1; distinct = sha1 of canonical case")
+
+
+# ---------------------------------------------------------------------------------------------------------------------------
+# a USER-SUPPLIED optimiser INSTANCE that owns more than the parameters the current loss reaches, with state that survives between the
+# fits: one instance shared by two hedgers fitted one after the other (in any order, also back and forth), one instance used for
+# consecutive fits of one hedger, an instance that also owns an unrelated parameter the caller trained before (same or own parameter
+# group), frozen layers.  Stateful kinds: SGD with momentum / Nesterov / weight decay, Adam (with weight decay), AdamW, RMSprop (with
+# momentum); plain SGD as the control.  The explicit loop `opt.zero_grad(); simulate; loss; backward; opt.step()` is run with an optimiser
+# of the same class and options over the same parameters through the same sequence; a parameter the batch's loss does not reach has no
+# gradient there and torch's optimisers leave it alone.  Predicates (bitwise; float64 and float32): after EVERY fit of the sequence all
+# parameters the optimiser owns (those outside the loss too) equal the explicit loop's; a parameter outside the loss that the explicit
+# loop leaves unchanged during that fit is unchanged by fit.  The event list of every fit goes to the Lean op "fit" as well.
+
+SHARED_OPTS = [("sgd-momentum", "SGD", dict(lr=0.05, momentum=0.9)),
+               ("sgd-nesterov", "SGD", dict(lr=0.05, momentum=0.5, nesterov=True)),
+               ("sgd-weight-decay", "SGD", dict(lr=0.05, weight_decay=0.0625)),
+               ("adam", "Adam", dict(lr=0.01)),
+               ("adam-weight-decay", "Adam", dict(lr=0.01, weight_decay=0.0625)),
+               ("adamw", "AdamW", dict(lr=0.01, weight_decay=0.125)),
+               ("rmsprop", "RMSprop", dict(lr=0.01)),
+               ("rmsprop-momentum", "RMSprop", dict(lr=0.01, momentum=0.5)),
+               ("sgd-plain", "SGD", dict(lr=0.05))]
+
+
+def check_shared_optimizer(ctx, torch, reqs, metas):
+    import pfhedge.nn as nn
+    import pfhedge.instruments as I
+    from pfhedge.nn import Hedger
+    g = Gen(f"{ctx.seed}:shared_optimizer")
+    orig_backward = torch.Tensor.backward
+    # on every tier, for every seed: every optimiser kind x {two hedgers one after the other, an extra parameter trained before};
+    # some longer sequences
+    corpus = []
+    for oi in range(len(SHARED_OPTS)):
+        corpus.append(dict(opt=oi, n_models=2, order=[0, 1], extra=False, pre=0))
+        corpus.append(dict(opt=oi, n_models=1, order=[0], extra=True, pre=1))
+    for oi, order_, nm_, ex_ in [(0, [0, 1, 0], 2, True), (3, [1, 0, 1], 2, False), (0, [0, 0], 1, False), (5, [0, 0], 1, True), (7, [0, 1, 1], 2, True)]:
+        corpus.append(dict(opt=oi, n_models=nm_, order=order_, extra=ex_, pre=2))
+    ctx.extra["shared_optimizer_corpus_configurations"] = len(corpus)
+    for it in range(len(corpus) + (20 if ctx.tier == "quick" else 300)):
+        oi = g.randint(0, len(SHARED_OPTS) - 1)
+        n_models = g.choice([1, 2])
+        order = g.choice([[0, 1], [1, 0], [0, 1, 0], [0, 0, 1]]) if n_models == 2 else g.choice([[0], [0, 0]])
+        extra = g.chance(0.5)
+        pre = g.choice([0, 1, 2])              # optimiser steps the caller took on the extra parameter before the fits
+        own_group = g.chance(0.5)              # the extra parameter in a parameter group of its own (add_param_group)
+        frozen = g.chance(0.25)                # the first layer of every model frozen (requires_grad False) but owned by the optimiser
+        one_underlier = g.chance(0.5)          # the two derivatives on ONE underlier
+        ks = [g.choice([1, 2, 3]) for _ in range(3)]
+        n_paths = g.choice([1, 4, 16])
+        n_times = g.choice([1, 2])
+        validation = g.chance(0.5)
+        with_init = g.chance(0.3)
+        verbose = g.chance(0.3)
+        call_form = gen_call_form(g)
+        dtc = g.choice([torch.float64, torch.float64, torch.float32])
+        crit_name = g.choice(["erm", "es", "eloss"])
+        seed = g.randint(0, 10 ** 6)
+        if it < len(corpus):
+            c_ = corpus[it]
+            oi, n_models, order, extra, pre = c_["opt"], c_["n_models"], c_["order"], c_["extra"], c_["pre"]
+            frozen = False
+        ks = ks[:len(order)]
+        oname, ocls, okw = SHARED_OPTS[oi]
+        base_opt = getattr(torch.optim, ocls)
+        init_state = (1.25,) if with_init else None
+        case = {"shared_optimizer": True, "optimizer": oname, "optimizer_options": okw, "n_models": n_models, "fit_order": order, "epochs": ks,
+                "extra_parameter": extra, "extra_pre_steps": pre if extra else None, "extra_own_group": own_group if extra else None,
+                "frozen_first_layer": frozen, "one_underlier": one_underlier if n_models == 2 else None, "n_paths": n_paths, "n_times": n_times,
+                "validation": validation, "with_init": with_init, "verbose": verbose, "call_form": call_form, "dtype": str(dtc).replace("torch.", ""),
+                "criterion": crit_name, "seed": seed}
+        ctx.case(case, nontrivial=True, tag="fit_shared_optimizer")
+        ctx.traces += 1
+        ctx.stats[f"shared_optimizer:{oname}"] += 1
+        ctx.stats[f"shared_optimizer:models={n_models}/extra={extra}/fits={len(order)}"] += 1
+        sfx = ("" if call_form == "keyword" else ":positional") + (":verbose" if verbose else "")
+        events = []
+
+        class LogCrit(torch.nn.Module):
+            def __init__(self, inner, ref):
+                super().__init__()
+                self.inner, self.ref = inner, ref
+
+            def forward(self, input, target=0.0):
+                events.append(["loss", bool(self.ref[0].training), bool(torch.is_grad_enabled())])
+                return self.inner(input, target)
+
+        class LogOption(I.EuropeanOption):
+            ref = None
+
+            def simulate(self, n_paths=1, init_state=None):
+                events.append(["simulate", int(n_paths), init_state is not None, bool(self.ref[0].training), bool(torch.is_grad_enabled())])
+                super().simulate(n_paths=n_paths, init_state=init_state)
+
+        class LogOpt(base_opt):
+            def zero_grad(self, *a, **kw):
+                events.append(["zero_grad"])
+                return super().zero_grad(*a, **kw)
+
+            def step(self, *a, **kw):
+                events.append(["step"])
+                return super().step(*a, **kw)
+
+        def world(opt_cls):
+            """models, hedgers, derivatives, the extra parameter and ONE optimiser instance of class opt_cls over all of them; the caller's
+            own steps on the extra parameter already taken"""
+            hedgers, ders, owned = [], [], []
+            stock0 = None
+            for i in range(n_models):
+                torch.manual_seed(seed + i)
+                model = torch.nn.Sequential(torch.nn.Linear(2, 3, dtype=dtc), torch.nn.ReLU(), torch.nn.Linear(3, 1, dtype=dtc))
+                if frozen:
+                    model[0].requires_grad_(False)
+                crit = {"erm": lambda: nn.EntropicRiskMeasure(), "es": lambda: nn.ExpectedShortfall(0.5), "eloss": lambda: nn.EntropicLoss()}[crit_name]()
+                ref = [None]
+                hedger = Hedger(model, ["moneyness", "time_to_maturity"], criterion=LogCrit(crit, ref))
+                ref[0] = hedger
+                orig_train = hedger.train
+
+                def train(mode=True, orig_train=orig_train):
+                    events.append(["train"] if mode else ["eval"])
+                    return orig_train(mode)
+                hedger.train = train
+                stock = stock0 if (one_underlier and stock0 is not None) else I.BrownianStock(cost=1e-3, dtype=dtc)
+                stock0 = stock
+                d = LogOption(stock, call=i == 0, strike=1.0 if i == 0 else 1.05, maturity=(3 + i) / 250)
+                d.ref = ref
+                hedgers.append(hedger)
+                ders.append(d)
+                owned.append(list(model.parameters()))
+            params = [p for ps in owned for p in ps]
+            xp = torch.nn.Parameter(torch.tensor([0.5, -1.25, 2.0], dtype=dtc)) if extra else None
+            if extra and not own_group:
+                params = params + [xp]
+            opt = opt_cls(params, **okw)
+            if extra and own_group:
+                opt.add_param_group({"params": [xp]})
+            if extra:
+                owned.append([xp])
+                for _ in range(pre):
+                    opt.zero_grad()
+                    ((xp - 1.0) ** 2).sum().backward()
+                    opt.step()
+            events.clear()
+            return hedgers, ders, owned, opt
+        hedgers, ders, owned, opt = world(LogOpt)
+        hedgers2, ders2, owned2, ref_opt = world(base_opt)
+        flat = lambda ow_: [p.detach().clone() for ps in ow_ for p in ps]
+        names = [f"model{i}.{nm_}" for i in range(n_models) for nm_, _ in hedgers[i].model.named_parameters()] + (["extra"] * bool(extra))
+        for j, (hi, k) in enumerate(zip(order, ks)):
+            fcase = case | {"fit_index": j, "fitted_hedger": hi}
+            before, before2 = flat(owned), flat(owned2)
+            events.clear()
+
+            def patched_backward(self, *a, **kw):
+                events.append(["backward"])
+                return orig_backward(self, *a, **kw)
+            torch.Tensor.backward = patched_backward
+            try:
+                torch.manual_seed(seed + 100 + j)
+                st, hist, _ = call_fit(hedgers[hi].fit, ders[hi], call_form, hedge=None, n_epochs=k, n_paths=n_paths, n_times=n_times, optimizer=opt,
+                                       init_state=init_state, validation=validation, **display_opts(verbose))
+            finally:
+                torch.Tensor.backward = orig_backward
+            evs = list(events)
+            if st != "ok":
+                ctx.fail("fit raised with a user-supplied optimiser instance that owns further parameters", fcase, key="fit:shared-optimizer:error" + sfx, detail=hist)
+                break
+            reqs.append({"op": "fit", "epochs": k, "n_paths": n_paths, "n_times": n_times, "with_init": with_init, "opt": "instance", "lazy": False,
+                         "validation": validation, "start_training": True})
+            metas.append((fcase, st, hist, evs))
+            if sum(1 for e in evs if e[0] == "step") != k:
+                ctx.fail("fit did not perform exactly one optimiser step per epoch", fcase, key="fit:steps:shared-optimizer" + sfx,
+                         detail={"steps": sum(1 for e in evs if e[0] == "step")})
+            if (hist is None) != (not validation) or (validation and len(hist) != k):
+                ctx.fail("fit did not return one validation loss per epoch (None when validation is off)", fcase, key="fit:history:shared-optimizer" + sfx, detail=str(hist)[:100])
+            # the explicit loop, same seed, the twin optimiser instance
+            h2, d2 = hedgers2[hi], ders2[hi]
+            torch.manual_seed(seed + 100 + j)
+            for ep in range(k):
+                h2.train()
+                ref_opt.zero_grad()
+                d2.simulate(n_paths=n_paths, init_state=init_state)
+                loss = h2.criterion(h2.compute_portfolio(d2), d2.payoff())
+                loss.backward()
+                ref_opt.step()
+                if validation:
+                    h2.eval()
+                    with torch.no_grad():
+                        for _ in range(n_times):
+                            d2.simulate(n_paths=n_paths, init_state=init_state)
+                            h2.criterion(h2.compute_portfolio(d2), d2.payoff())
+            after, after2 = flat(owned), flat(owned2)
+            # which parameters does the loss of this fit reach?  Those of the fitted model that require gradients; nothing else
+            own_ids = {id(p) for p in owned[hi] if p.requires_grad}
+            outside = [id(p) not in own_ids for ps in owned for p in ps]
+            moved = [nm_ for nm_, out_, b_, a_, b2_, a2_ in zip(names, outside, before, after, before2, after2)
+                     if out_ and torch.equal(b2_, a2_) and not torch.equal(b_, a_)]
+            if moved:
+                ctx.fail("fit changed parameters that receive no gradient of the criterion over its batches (parameters of another model / an unrelated "
+                         "parameter / a frozen layer owned by the supplied optimiser instance); the explicit zero_grad / simulate / loss / backward / step "
+                         "loop with the same optimiser leaves them unchanged", fcase, key="fit:shared-optimizer:foreign-parameters-moved" + sfx,
+                         detail={"moved": moved, "max_abs_change": max(float((a_ - b_).abs().max()) for out_, b_, a_ in zip(outside, before, after) if out_)})
+                break
+            differ = [nm_ for nm_, a_, a2_ in zip(names, after, after2) if not torch.equal(a_, a2_)]
+            if differ:
+                ctx.fail("parameters owned by the supplied optimiser instance differ, after fit, from the explicit simulate/loss/backward/step loop with the "
+                         "same optimiser (class, options, earlier steps) under the same seed", fcase, key="fit:shared-optimizer:reference-loop" + sfx,
+                         detail={"differ": differ, "max_abs_diff": max(float((a_ - a2_).abs().max()) for a_, a2_ in zip(after, after2))})
+                break
 
 
 # ---------------------------------------------------------------------------------------------------------------------------
